@@ -64,13 +64,16 @@ def caret_param(b, f):
     return None
 
 
-def trusted_constraint(b, f, con):
-    """T1/T2/T5 at a root: (a, b, c) meaning a - b <= c"""
+def trusted_constraint(b, f, con, dirty=()):
+    """T1/T2/T5 at a root: (a, b, c) meaning a - b <= c.  `dirty`: places written since entry on the way to the site --
+    T5 speaks about the cursor as it was at entry (C09 establishes it at every exit, not in the middle of a body)"""
+    from analysis.interproc import _written_hits
     a, bb, c = con
     bp = buffer_param(b, f)
     cp = caret_param(b, f)
-    if cp is None and b.id == "formats::parse_with_parser":
-        # the loaders' driver loop: its local caret is only ever written by the text parsers' print_char (C09)
+    if cp is None:
+        # a loader's driver loop (formats::parse_with_parser, and the Atascii / Seq loaders' own loops): its local caret is
+        # created by Caret::default() and only ever written by the text parsers' print_char (C09)
         for l in range(b.argc + 1, len(b.locals)):
             if b.lname(l) == "caret" and b.tys(l) == "caret::Caret":
                 if a[0] == "n" and a[1] is None and bb[0] == "n" and bb[1] is not None and bb[1][0] == "v" \
@@ -86,7 +89,9 @@ def trusted_constraint(b, f, con):
     # 0 <= caret.pos.{x,y}  (T5: guaranteed by C09's clamp rule, which checks every cursor store)
     if cp is not None and a[0] == "n" and a[1] is None and bb[0] == "n" and bb[1] is not None and bb[1][0] == "v" \
             and bb[1][1] == cp and bb[1][2] in (("*", "pos", "x"), ("*", "pos", "y")):
-        if a[2] - bb[2] <= c:
+        # writes made by callees with a mod summary (3-tuples) are fine: every callee that takes the cursor honours {I} f {I}
+        # (C09 checks each of them); direct stores and unknown callees are not
+        if a[2] - bb[2] <= c and not any(_written_hits(w, (cp, bb[1][2])) for w in dirty if len(w) == 2):
             return "T5"
     return None
 
@@ -234,7 +239,7 @@ def run_scope(chk, scope, roots, floor_roots, floor_bodies, floor_sinks, reviewe
             chain = o.trust[2] if lifted_here else [bid]
             # trust rules apply to what remains unproven at a root
             trust = None
-            if (isroot or bid in DRIVERS) and (o.lift is not None or o.raw):
+            if o.lift is not None or o.raw:
                 lf = o.lift
                 cons = None
                 if o.raw:
@@ -244,8 +249,10 @@ def run_scope(chk, scope, roots, floor_roots, floor_bodies, floor_sinks, reviewe
                 elif lf[0] == "lifted" and lf[1].kind == "conj":
                     cons = lf[1].parts[0]
                 if cons:
-                    ts = [trusted_constraint(b, f, con) for con in cons]
-                    if all(ts):
+                    ts = [trusted_constraint(b, f, con, o.dirty or ()) for con in cons]
+                    # T1/T2 are facts about the arguments of the entry points; T5 is a global invariant of the cursor at body
+                    # entry and may discharge a residue wherever it is final (e.g. a closure run in a loop)
+                    if all(ts) and (isroot or bid in DRIVERS or set(ts) == {"T5"}):
                         trust = "+".join(sorted(set(ts)))
             ident = (origin, o.cls, o.desc, o.line)
             rec = sites.get(ident)
@@ -253,6 +260,8 @@ def run_scope(chk, scope, roots, floor_roots, floor_bodies, floor_sinks, reviewe
                 rec = sites[ident] = {"origin": origin, "cls": o.cls, "desc": o.desc, "file": o.file, "line": o.line, "what": o.what,
                                       "fails": [], "trusted": []}
             (rec["trusted"] if trust else rec["fails"]).append((bid, chain, trust))
+            if os.environ.get("PANIC_DEBUG") and os.environ["PANIC_DEBUG"] in o.desc and not trust:
+                print("DEBUG final at %s cls=%s raw=%s lift=%s dirty=%s" % (bid, o.cls, o.raw, o.lift and o.lift[0], sorted(o.dirty or (), key=str)[:12]))
     # a sink site is fine if every path that reaches a final verdict is trusted
     reviewed = {}
     try:
